@@ -702,6 +702,16 @@ impl Column {
             Column::Other(m) => if m@.contains_key(i) { Some(m@[i]) } else { None },
         }
     }
+    /// number of stored rows
+    pub open spec fn size(&self) -> nat {
+        match self {
+            Column::Int(m) => m.size(),
+            Column::Float(m) => m.size(),
+            Column::String(m) => m.size(),
+            Column::Bool(m) => m.size(),
+            Column::Other(m) => m@.dom().len(),
+        }
+    }
     pub open spec fn is_empty_col(&self) -> bool { forall|j: usize| (#[trigger] self.at(j)).is_none() }
 
     // promote_to_other (ASSUMED, A-PROMOTE): it hands ColumnData::for_each a closure that captures `&mut spilled`, which
@@ -782,6 +792,24 @@ impl Column {
         self.wf(),
 //@ensures
         r == self.at(idx).is_some(),   //#has_iff_stored
+//@end
+
+//@fn Column::len ret=r
+//@requires
+        self.wf(),
+//@ensures
+        r == self.size(),   //#len_is_size
+//@end
+
+//@fn Column::is_dense ret=r
+//@ensures
+        r == match self {
+            Column::Int(m) => m is Dense,
+            Column::Float(m) => m is Dense,
+            Column::String(m) => m is Dense,
+            Column::Bool(m) => m is Dense,
+            Column::Other(_) => false,
+        },   //#dense_iff_dense_representation
 //@end
 }
 
